@@ -334,10 +334,48 @@ def run(ctx):
             ctx.check(0 < tol_g <= 1e-6, "C03:snap:%s.gimbal-threshold" % short,
                       "gimbal threshold %.3g: inside it phi2 is set to 0, a rebuild error of up to the threshold" % tol_g,
                       core.loc(mod, fn))
+        # width of the gimbal band in PHI: the test may be on the angle (|PHI| < tol) or on its cosine (1 - cos PHI < tol,
+        # i.e. PHI < sqrt(2 tol)); inside the band phi2 is forced to 0 and the rebuilt matrix is off by up to the band width
+        import math
+        Usym = sym_array("U", (3, 3))
+        u22 = Rat.atom("U[2,2]")
+        acos = N.ref("arccos(x)", {"x": u22})
+        widths = []
+        for t_ in (t1, t2):
+            if not (isinstance(t_, ast.Compare) and len(t_.ops) == 1 and isinstance(t_.ops[0], (ast.Lt, ast.LtE))):
+                raise AnalysisError("u_to_euler: gimbal test `%s` is not `<expr> < tol`" % core.unparse(t_))
+            e_ = Evaluator(mod, inline=set())
+            env_ = {}
+            # bind every name the test mentions by evaluating the statements before the chain
+            for st_ in core.body_wo_doc(fn):
+                if st_ is chain:
+                    break
+                if isinstance(st_, ast.Assign) and isinstance(st_.targets[0], ast.Name):
+                    try:
+                        env_[st_.targets[0].id] = e_.eval(st_.value, dict(env_, **{fn.args.args[0].arg: Usym}))
+                    except AnalysisError:
+                        pass
+            left = scalar(e_.eval(t_.left, env_))
+            form = None
+            from xfabsa.poly import func_atom
+            if left.equals(func_atom("abs", acos)) or left.equals(func_atom("abs", acos - N.PI)):
+                form = "angle"
+            elif left.equals(1 - u22) or left.equals(1 + u22):
+                form = "cosine"
+            if form is None:
+                raise AnalysisError("u_to_euler: gimbal test `%s` is neither on the angle nor on its cosine" % core.unparse(t_))
+            widths.append(tol_g if form == "angle" else math.sqrt(2 * tol_g))
+        wmax = max(widths)
+        ctx.check(wmax <= 1e-6 * (1 + 1e-9), "C03:snap:%s.gimbal-band" % short,
+                  "the gimbal branches are taken for PHI within %.3g of 0 / pi (threshold %.3g applied to %s): there phi2 is forced "
+                  "to 0 and the rebuilt matrix is off by up to that width; the property demands 1e-6"
+                  % (wmax, tol_g, "1 -+ cos(PHI), i.e. a band of sqrt(2 tol)" if wmax > tol_g else "the angle"), core.loc(mod, fn))
     ctx.not_decided += ["accuracy of the inverse maps beyond the threshold rule (cancellation in 1 + tr U near 180 deg, "
                         "arccos near +-1)"]
     ctx.assumptions += ["numpy's cos, sin, arccos, arctan, dot, transpose",
                         "sin(PHI) >= 0 on [0, pi] (so the common factor of the arctangent arguments is non-negative)"]
+    from xfabsa import numeric as _N2
+    _N2.hazard_rule(ctx, 'C03')
     return ("Six constructors per module compared entry-wise, as canonical trigonometric polynomials, with the documented "
             "products of elementary rotations (themselves verified proper rotations in the same algebra): holds for all "
             "real arguments. u_to_rod and u_to_euler decided as reader/writer agreement on the writers' entries in all "
